@@ -465,13 +465,56 @@ pub fn minimise(sc: &C12Scenario, viol: &Violation, refs: &mut RefCache, budget:
         }
         let _ = done;
     }
-    // 6. program text: drop files, then lines (chunks halving)
+    // 6. program text: drop files, then lines (chunks halving).  Removing text shifts the
+    //    sequence of hash keys std hands out (k0 is incremented per map), so a reduced
+    //    program may fail under other seeds than the original: when the scenario is a single
+    //    job, every candidate is tried under a dozen hash seeds in one executor.
+    let attempt_text = |cand: C12Scenario, best: &mut C12Scenario, refs: &mut RefCache, budget: &mut usize| -> bool {
+        if *budget == 0 {
+            return false;
+        }
+        if job_count(&cand) != 1 || cand.threads.len() != 1 {
+            *budget -= 1;
+            let mut c = cand;
+            compact(&mut c);
+            if fails_same(&c, &class, refs) {
+                *best = c;
+                return true;
+            }
+            return false;
+        }
+        *budget -= 1;
+        let base = cand.threads[0].clone();
+        let job = cand.schedule[0].jobs[0].clone();
+        let mut multi = cand.clone();
+        multi.threads = vec![base.clone()];
+        for s in 1..=11u64 {
+            if s != base.hash_seed {
+                multi.threads.push(ThreadCfg { hash_seed: s, readdir_seed: base.readdir_seed });
+            }
+        }
+        multi.schedule = (0..multi.threads.len())
+            .map(|t| Round { jobs: vec![Job { thread: t, ..job.clone() }], interleave_seed: 0, switch_permille: 0 })
+            .collect();
+        let (res, v) = check_scenario(&multi, refs);
+        if let Some(x) = v.iter().find(|x| x.class == class) {
+            let t = res.jobs[x.job].thread;
+            let mut c = cand.clone();
+            c.threads = vec![multi.threads[t].clone()];
+            // confirm as a single job (fresh thread, no earlier jobs)
+            if fails_same(&c, &class, refs) {
+                *best = c;
+                return true;
+            }
+        }
+        false
+    };
     for pi in 0..best.programs.len() {
         let mut fi = 0;
         while best.programs[pi].files.len() > 1 && fi < best.programs[pi].files.len() {
             let mut c = best.clone();
             c.programs[pi].files.remove(fi);
-            if !attempt(c, &mut best, refs, budget) {
+            if !attempt_text(c, &mut best, refs, budget) {
                 fi += 1;
             }
         }
@@ -489,7 +532,7 @@ pub fn minimise(sc: &C12Scenario, viol: &Violation, refs: &mut RefCache, budget:
                     kept.extend_from_slice(&lines[end..]);
                     let mut c = best.clone();
                     c.programs[pi].files[fi].text = kept.join("\n") + "\n";
-                    if !attempt(c, &mut best, refs, budget) {
+                    if !attempt_text(c, &mut best, refs, budget) {
                         start = end;
                     }
                     if *budget == 0 {
@@ -502,7 +545,7 @@ pub fn minimise(sc: &C12Scenario, viol: &Violation, refs: &mut RefCache, budget:
         if best.programs[pi].annotate {
             let mut c = best.clone();
             c.programs[pi].annotate = false;
-            attempt(c, &mut best, refs, budget);
+            attempt_text(c, &mut best, refs, budget);
         }
     }
     best
